@@ -191,6 +191,11 @@ func (c *ChordStorage) List(ctx context.Context, prefix string, recursive bool) 
 			if key.GetType() != protocol.KeyComposite_SIMPLE {
 				continue
 			}
+			if !strings.HasPrefix(string(key.GetKey()), prefix) {
+				// the KV matches on the raw prefix, which also matches siblings that merely
+				// share the directory's name ("a-staging/x" for "a"): not a child
+				continue
+			}
 			sub := strings.TrimPrefix(string(key.GetKey()), prefix)
 			before, _, ok := strings.Cut(sub, "/")
 
